@@ -21,9 +21,31 @@ type CacheValue struct {
 type Cache map[CacheKey]CacheValue
 
 // -0.0 and 0.0 are the same map key yet print differently: don't memoize calls with a negative zero argument.
+// Same for a negative zero inside a (small, hashable) array or map argument.
 func isNegativeZero(v object.Object) bool {
-	f, ok := v.(object.Float)
-	return ok && f.Value == 0 && math.Signbit(f.Value)
+	switch v.Type() { //nolint:exhaustive // only these can be or hold a float.
+	case object.FLOAT:
+		f, ok := v.(object.Float)
+		return ok && f.Value == 0 && math.Signbit(f.Value)
+	case object.ARRAY:
+		for _, e := range object.Elements(v) {
+			if isNegativeZero(e) {
+				return true
+			}
+		}
+	case object.MAP:
+		m, ok := v.(object.Map)
+		if !ok {
+			return false
+		}
+		for _, k := range object.Elements(v) {
+			e, _ := m.Get(k)
+			if isNegativeZero(k) || isNegativeZero(e) {
+				return true
+			}
+		}
+	}
+	return false
 }
 
 func NewCache() Cache {
